@@ -432,6 +432,16 @@ func (t *tOps) open(f *tFile) (ch *cache.Handle, err error) {
 	return
 }
 
+// Returns the table reader of an open table. The table cache is closed by
+// force when the DB is closed, a handle obtained just before that has lost
+// its value.
+func (t *tOps) reader(ch *cache.Handle) (*table.Reader, error) {
+	if tr, ok := ch.Value().(*table.Reader); ok && tr != nil {
+		return tr, nil
+	}
+	return nil, ErrClosed
+}
+
 // Finds key/value pair whose key is greater than or equal to the
 // given key.
 func (t *tOps) find(f *tFile, key []byte, ro *opt.ReadOptions) (rkey, rvalue []byte, err error) {
@@ -440,7 +450,11 @@ func (t *tOps) find(f *tFile, key []byte, ro *opt.ReadOptions) (rkey, rvalue []b
 		return nil, nil, err
 	}
 	defer ch.Release()
-	return ch.Value().(*table.Reader).Find(key, true, ro)
+	tr, err := t.reader(ch)
+	if err != nil {
+		return nil, nil, err
+	}
+	return tr.Find(key, true, ro)
 }
 
 // Finds key that is greater than or equal to the given key.
@@ -450,7 +464,11 @@ func (t *tOps) findKey(f *tFile, key []byte, ro *opt.ReadOptions) (rkey []byte, 
 		return nil, err
 	}
 	defer ch.Release()
-	return ch.Value().(*table.Reader).FindKey(key, true, ro)
+	tr, err := t.reader(ch)
+	if err != nil {
+		return nil, err
+	}
+	return tr.FindKey(key, true, ro)
 }
 
 // Returns approximate offset of the given key.
@@ -460,7 +478,11 @@ func (t *tOps) offsetOf(f *tFile, key []byte) (offset int64, err error) {
 		return
 	}
 	defer ch.Release()
-	return ch.Value().(*table.Reader).OffsetOf(key)
+	tr, err := t.reader(ch)
+	if err != nil {
+		return 0, err
+	}
+	return tr.OffsetOf(key)
 }
 
 // Creates an iterator from the given table.
@@ -469,7 +491,12 @@ func (t *tOps) newIterator(f *tFile, slice *util.Range, ro *opt.ReadOptions) ite
 	if err != nil {
 		return iterator.NewEmptyIterator(err)
 	}
-	iter := ch.Value().(*table.Reader).NewIterator(slice, ro)
+	tr, err := t.reader(ch)
+	if err != nil {
+		ch.Release()
+		return iterator.NewEmptyIterator(err)
+	}
+	iter := tr.NewIterator(slice, ro)
 	iter.SetReleaser(ch)
 	return iter
 }
